@@ -50,8 +50,12 @@ func (f *Font) Subset(glyphs []glyph.ID) *Font {
 
 	if f.CMapTable != nil {
 		res.CMapTable = make(cmap.Table, len(f.CMapTable))
-		for key := range f.CMapTable {
-			c, err := f.CMapTable.Get(key)
+		for key, data := range f.CMapTable {
+			// Decode the subtable as it stands, without translating Macintosh
+			// character codes to Unicode: the subset keeps the codes of the
+			// subtable and only changes the glyph IDs.
+			rawKey := cmap.Key{PlatformID: 3, EncodingID: 1}
+			c, err := cmap.Table{rawKey: data}.Get(rawKey)
 			if err != nil {
 				continue
 			}
